@@ -9,6 +9,7 @@ import (
 	"go/token"
 	"os"
 	"path/filepath"
+	"sort"
 	"strings"
 )
 
@@ -220,7 +221,7 @@ func facts(repo string) {
 			found[id.Name+"."+fd.Name.Name] = x.toks
 		}
 	}
-	fmt.Println("/- GENERATED by `datascope facts` from " + "app/scope/datascope/{data,child,locker}.go — do not edit. -/")
+	fmt.Println("/- GENERATED by `datascope facts` from " + "app/scope/datascope/{data,child,locker}.go and from every function of the repository that mentions LockData — do not edit. -/")
 	fmt.Println("import Goat.Tie.C13.Tok")
 	fmt.Println("namespace Goat.Tie.C13.Extracted")
 	fmt.Println("open Goat.Tie.C13")
@@ -239,5 +240,839 @@ func facts(repo string) {
 		}
 		fmt.Printf("def %s_%s : List Tok := [%s]\n", m.recv, m.name, strings.Join(lt, ", "))
 	}
+	idiomFacts(repo, false)
 	fmt.Println("end Goat.Tie.C13.Extracted")
+}
+
+// ---------------------------------------------------------------------------------------------
+// The get-or-create idiom in the services (Goat/Tie/C13: ITok, Expected.getOrCreate…, tie_*_get_or_create).
+//
+// Every function of the repository under test — outside package datascope, outside _test.go — that mentions
+// `LockData` is a user of the idiom.  Its body is flattened, in source order, to the events of ITok: what
+// happens to the locker `l := X.LockData()` (Value / SetValue / Keys / Commit / defer Commit), direct calls
+// of the scope's own data methods (X.Value / X.SetValue / X.Keys: outside the locked section), the nil test
+// of the value read, the creation and type assertion of the instance, and every return with its operands.
+// Statements that involve none of these leave no trace; keys and variables are numbered by first appearance.
+
+type idiomUser struct{ dir, recv, name, lean string }
+
+// the users the Lean side has a theorem for (tie_<lean>_get_or_create); anything else found is listed in
+// `idiomUsers` (tie_idiom_users fails) and emitted as user_<n>
+var knownUsers = []idiomUser{
+	{"app/modules/pipelinem/pipservices/tasks", "Unit", "FromScope", "tasks_Unit_FromScope"},
+	{"app/modules/commonm/commservices/envs", "Unit", "Envs", "envs_Unit_Envs"},
+	{"app/modules/commonm/commservices/waits", "WaitManager", "ForScope", "waits_WaitManager_ForScope"},
+}
+
+type itok struct {
+	kind string // lock deferCommit commit value setValue keys ifNil ifNotNil ifOther else fi create assert ret unlockedValue unlockedSetValue unlockedKeys lockerEscapes other missing
+	key  string // source text of the key expression
+	a, b string // variable names
+	ops  []itok // operands of ret: kinds var assertOf nil commit other
+}
+
+type pkgFiles struct {
+	fset  *token.FileSet
+	files map[string]*ast.File // by path relative to the repo
+}
+
+type idiomX struct {
+	fset    *token.FileSet
+	pkg     *pkgFiles
+	scope   string          // source text of X
+	locker  string          // name of l ("" when the function takes no locker)
+	lockPos token.Pos       // position of the primary X.LockData() call
+	tracked map[string]bool // variables that take part in read → test → create → store → return
+	results []string        // the named results
+	toks    []itok
+}
+
+func (x *idiomX) add(t itok) { x.toks = append(x.toks, t) }
+
+func recvName(fd *ast.FuncDecl) string {
+	if fd.Recv == nil || len(fd.Recv.List) != 1 {
+		return ""
+	}
+	t := fd.Recv.List[0].Type
+	if st, ok := t.(*ast.StarExpr); ok {
+		t = st.X
+	}
+	if ix, ok := t.(*ast.IndexExpr); ok {
+		t = ix.X
+	}
+	if id, ok := t.(*ast.Ident); ok {
+		return id.Name
+	}
+	return "?"
+}
+
+func funcKey(dir string, fd *ast.FuncDecl) string {
+	if r := recvName(fd); r != "" {
+		return dir + "." + r + "." + fd.Name.Name
+	}
+	return dir + "." + fd.Name.Name
+}
+
+func mentionsLockData(n ast.Node) bool {
+	found := false
+	ast.Inspect(n, func(m ast.Node) bool {
+		if sel, ok := m.(*ast.SelectorExpr); ok && sel.Sel.Name == "LockData" {
+			found = true
+		}
+		return !found
+	})
+	return found
+}
+
+// lockDataCall: e is `<X>.LockData()`; returns X
+func lockDataCall(e ast.Expr) (ast.Expr, bool) {
+	c, ok := e.(*ast.CallExpr)
+	if !ok || len(c.Args) != 0 {
+		return nil, false
+	}
+	sel, ok := c.Fun.(*ast.SelectorExpr)
+	if !ok || sel.Sel.Name != "LockData" {
+		return nil, false
+	}
+	return sel.X, true
+}
+
+func unparen(e ast.Expr) ast.Expr {
+	for {
+		p, ok := e.(*ast.ParenExpr)
+		if !ok {
+			return e
+		}
+		e = p.X
+	}
+}
+
+func identName(e ast.Expr) string {
+	if id, ok := unparen(e).(*ast.Ident); ok {
+		return id.Name
+	}
+	return ""
+}
+
+// assertOf: e is `<ident>.(T)`; returns the ident's name
+func assertOf(e ast.Expr) string {
+	if ta, ok := unparen(e).(*ast.TypeAssertExpr); ok && ta.Type != nil {
+		return identName(ta.X)
+	}
+	return ""
+}
+
+// pairs of a (possibly parallel) assignment / var spec; ok=false when the counts differ
+func pairs(lhs, rhs []ast.Expr) ([][2]ast.Expr, bool) {
+	if len(lhs) != len(rhs) {
+		return nil, false
+	}
+	out := make([][2]ast.Expr, len(lhs))
+	for i := range lhs {
+		out[i] = [2]ast.Expr{lhs[i], rhs[i]}
+	}
+	return out, true
+}
+
+// prepare finds X, l and the tracked variables
+func (x *idiomX) prepare(fd *ast.FuncDecl) {
+	x.tracked = map[string]bool{}
+	note := func(lhs, rhs []ast.Expr) {
+		ps, ok := pairs(lhs, rhs)
+		if !ok {
+			return
+		}
+		for _, p := range ps {
+			if sx, ok := lockDataCall(p[1]); ok && x.locker == "" && identName(p[0]) != "" {
+				x.locker, x.scope, x.lockPos = identName(p[0]), src(x.fset, sx), p[1].Pos()
+			}
+		}
+	}
+	ast.Inspect(fd.Body, func(n ast.Node) bool {
+		switch v := n.(type) {
+		case *ast.AssignStmt:
+			note(v.Lhs, v.Rhs)
+		case *ast.ValueSpec:
+			ids := make([]ast.Expr, len(v.Names))
+			for i, id := range v.Names {
+				ids[i] = id
+			}
+			note(ids, v.Values)
+		}
+		return true
+	})
+	if x.scope == "" && fd.Type.Params != nil {
+		for _, f := range fd.Type.Params.List {
+			if t := src(x.fset, f.Type); (t == "app.Scope" || t == "app.DataScope") && len(f.Names) > 0 {
+				x.scope = f.Names[0].Name
+				break
+			}
+		}
+	}
+	if fd.Type.Results != nil {
+		for _, f := range fd.Type.Results.List {
+			for _, id := range f.Names {
+				x.tracked[id.Name] = true
+				x.results = append(x.results, id.Name)
+			}
+		}
+	}
+	// variables read from the scope / the locker, stored through the locker, returned
+	mark := func(lhs, rhs []ast.Expr) {
+		if ps, ok := pairs(lhs, rhs); ok {
+			for _, p := range ps {
+				if c, ok := unparen(p[1]).(*ast.CallExpr); ok {
+					if recv, m := x.dataCall(c); recv != "" && m == "Value" && identName(p[0]) != "" {
+						x.tracked[identName(p[0])] = true
+					}
+				}
+			}
+		}
+	}
+	ast.Inspect(fd.Body, func(n ast.Node) bool {
+		switch v := n.(type) {
+		case *ast.AssignStmt:
+			mark(v.Lhs, v.Rhs)
+		case *ast.ValueSpec:
+			ids := make([]ast.Expr, len(v.Names))
+			for i, id := range v.Names {
+				ids[i] = id
+			}
+			mark(ids, v.Values)
+		case *ast.CallExpr:
+			if recv, m := x.dataCall(v); recv != "" && m == "SetValue" && len(v.Args) == 2 && identName(v.Args[1]) != "" {
+				x.tracked[identName(v.Args[1])] = true
+			}
+		case *ast.ReturnStmt:
+			for _, r := range v.Results {
+				if n := identName(r); n != "" && n != "nil" {
+					x.tracked[n] = true
+				} else if n := assertOf(r); n != "" {
+					x.tracked[n] = true
+				}
+			}
+		}
+		return true
+	})
+	// y = x.(T) joins y and x
+	for changed := true; changed; {
+		changed = false
+		ast.Inspect(fd.Body, func(n ast.Node) bool {
+			if v, ok := n.(*ast.AssignStmt); ok && len(v.Rhs) == 1 && len(v.Lhs) >= 1 {
+				from, to := assertOf(v.Rhs[0]), identName(v.Lhs[0])
+				if from != "" && to != "" && (x.tracked[from] != x.tracked[to]) {
+					x.tracked[from], x.tracked[to] = true, true
+					changed = true
+				}
+			}
+			return true
+		})
+	}
+	delete(x.tracked, "_")
+}
+
+// dataCall: c is `<l>.<M>(…)` ("l") or `<X>.<M>(…)` ("X") for a method M of the data scope interface
+func (x *idiomX) dataCall(c *ast.CallExpr) (recv, method string) {
+	sel, ok := c.Fun.(*ast.SelectorExpr)
+	if !ok {
+		return "", ""
+	}
+	switch sel.Sel.Name {
+	case "Value", "SetValue", "Keys", "Commit", "LockData":
+	default:
+		if x.locker != "" && identName(sel.X) == x.locker {
+			return "l", sel.Sel.Name
+		}
+		return "", ""
+	}
+	if x.locker != "" && identName(sel.X) == x.locker {
+		return "l", sel.Sel.Name
+	}
+	if x.scope != "" && src(x.fset, sel.X) == x.scope && sel.Sel.Name != "Commit" {
+		return "X", sel.Sel.Name
+	}
+	return "", ""
+}
+
+// call emits the event of one call on l or X (dst: the variable the result is assigned to); false = not such a call
+func (x *idiomX) call(c *ast.CallExpr, dst string) bool {
+	recv, m := x.dataCall(c)
+	if recv == "" {
+		return false
+	}
+	key := ""
+	if len(c.Args) > 0 {
+		key = src(x.fset, c.Args[0])
+	}
+	for i, a := range c.Args { // events inside the arguments come first (evaluation order)
+		if !(m == "SetValue" && i == 1 && identName(a) != "") {
+			x.expr(a)
+		}
+	}
+	switch recv + "." + m {
+	case "l.Value":
+		x.add(itok{kind: "value", key: key, a: dst})
+	case "l.SetValue":
+		v := "?"
+		if len(c.Args) == 2 {
+			if v = identName(c.Args[1]); v == "" {
+				v = "expr " + src(x.fset, c.Args[1])
+			}
+		}
+		x.add(itok{kind: "setValue", key: key, a: v})
+	case "l.Keys":
+		x.add(itok{kind: "keys"})
+	case "l.Commit":
+		x.add(itok{kind: "commit"})
+	case "X.Value":
+		x.add(itok{kind: "unlockedValue", key: key, a: dst})
+	case "X.SetValue":
+		x.add(itok{kind: "unlockedSetValue", key: key})
+	case "X.Keys":
+		x.add(itok{kind: "unlockedKeys"})
+	case "X.LockData":
+		if c.Pos() == x.lockPos {
+			x.add(itok{kind: "lock"})
+		} else {
+			x.add(itok{kind: "other"}) // a second section, or a locker that is not kept in a variable
+		}
+	default: // l.LockData (nested locker), any other method of l
+		x.add(itok{kind: "other"})
+	}
+	return true
+}
+
+// expr emits the events hidden inside an expression
+func (x *idiomX) expr(e ast.Node) {
+	if e == nil {
+		return
+	}
+	ast.Inspect(e, func(n ast.Node) bool {
+		switch v := n.(type) {
+		case *ast.CallExpr:
+			if x.call(v, "_") {
+				return false
+			}
+		case *ast.FuncLit:
+			x.add(itok{kind: "other"})
+		case *ast.SelectorExpr:
+			if v.Sel.Name == "LockData" { // not called here: a method value, or LockData on another scope
+				x.add(itok{kind: "lockerEscapes"})
+				return false
+			}
+		case *ast.Ident:
+			if x.locker != "" && v.Name == x.locker {
+				x.add(itok{kind: "lockerEscapes"})
+			}
+		}
+		return true
+	})
+}
+
+// scopeIsOnlyStored: the callee (a function of the same package, called by its plain name) does not call any
+// method on the parameter that receives X — it can only keep the handle, not read the scope under our lock
+func (x *idiomX) scopeIsOnlyStored(c *ast.CallExpr) bool {
+	pos := -1
+	for i, a := range c.Args {
+		if src(x.fset, a) == x.scope {
+			pos = i
+		}
+	}
+	if pos < 0 || x.scope == "" {
+		return true
+	}
+	id, ok := c.Fun.(*ast.Ident)
+	if !ok || x.pkg == nil {
+		return false
+	}
+	for _, f := range x.pkg.files {
+		for _, d := range f.Decls {
+			fd, ok := d.(*ast.FuncDecl)
+			if !ok || fd.Recv != nil || fd.Name.Name != id.Name || fd.Body == nil {
+				continue
+			}
+			var params []string
+			for _, fl := range fd.Type.Params.List {
+				for _, n := range fl.Names {
+					params = append(params, n.Name)
+				}
+			}
+			if pos >= len(params) {
+				return false
+			}
+			clean := true
+			ast.Inspect(fd.Body, func(n ast.Node) bool {
+				if sel, ok := n.(*ast.SelectorExpr); ok && identName(sel.X) == params[pos] {
+					clean = false
+				}
+				return clean
+			})
+			return clean
+		}
+	}
+	return false
+}
+
+func (x *idiomX) assign(lhs, rhs []ast.Expr) {
+	ps, ok := pairs(lhs, rhs)
+	if !ok { // a, b := f()   /   v, ok := x.(T)
+		for _, r := range rhs {
+			if from := assertOf(r); from != "" && x.tracked[from] && len(lhs) > 0 && identName(lhs[0]) != "" {
+				x.add(itok{kind: "assert", a: identName(lhs[0]), b: from})
+				return
+			}
+			x.expr(r)
+		}
+		for _, l := range lhs {
+			if n := identName(l); n != "" && x.tracked[n] {
+				x.add(itok{kind: "create", a: n})
+			} else if n == "" {
+				x.expr(l)
+			}
+		}
+		return
+	}
+	for _, p := range ps {
+		l, r := identName(p[0]), unparen(p[1])
+		if l == "" {
+			x.expr(p[0])
+		}
+		dst := l
+		if dst == "" {
+			dst = "expr " + src(x.fset, p[0])
+		}
+		if c, ok := r.(*ast.CallExpr); ok && x.call(c, dst) {
+			continue
+		}
+		if from := assertOf(r); from != "" && (x.tracked[from] || x.tracked[l]) {
+			x.add(itok{kind: "assert", a: dst, b: from})
+			continue
+		}
+		x.expr(r)
+		if l == "" || !x.tracked[l] {
+			continue
+		}
+		if n := identName(r); n != "" { // y = z / y = nil: a flow the skeleton does not describe
+			x.add(itok{kind: "other"})
+			continue
+		}
+		x.add(itok{kind: "create", a: l})
+		if c, ok := r.(*ast.CallExpr); ok && !x.scopeIsOnlyStored(c) {
+			x.add(itok{kind: "other"}) // the constructor may use the scope while we hold its lock
+		}
+	}
+}
+
+func (x *idiomX) stmts(list []ast.Stmt) {
+	for _, s := range list {
+		x.stmt(s)
+	}
+}
+
+func (x *idiomX) nilTest(cond ast.Expr) (kind, v string) {
+	b, ok := unparen(cond).(*ast.BinaryExpr)
+	if !ok || (b.Op != token.EQL && b.Op != token.NEQ) {
+		return "", ""
+	}
+	l, r := identName(b.X), identName(b.Y)
+	if l == "nil" {
+		l, r = r, l
+	}
+	if r != "nil" || l == "" || !x.tracked[l] {
+		return "", ""
+	}
+	if b.Op == token.EQL {
+		return "ifNil", l
+	}
+	return "ifNotNil", l
+}
+
+func (x *idiomX) stmt(s ast.Stmt) {
+	switch v := s.(type) {
+	case nil:
+	case *ast.ExprStmt:
+		if c, ok := unparen(v.X).(*ast.CallExpr); ok && x.call(c, "_") {
+			return
+		}
+		x.expr(v.X)
+	case *ast.AssignStmt:
+		x.assign(v.Lhs, v.Rhs)
+	case *ast.DeclStmt:
+		if gd, ok := v.Decl.(*ast.GenDecl); ok {
+			for _, sp := range gd.Specs {
+				if vs, ok := sp.(*ast.ValueSpec); ok && len(vs.Values) > 0 {
+					ids := make([]ast.Expr, len(vs.Names))
+					for i, id := range vs.Names {
+						ids[i] = id
+					}
+					x.assign(ids, vs.Values)
+				}
+			}
+		}
+	case *ast.DeferStmt:
+		if recv, m := x.dataCall(v.Call); recv == "l" && m == "Commit" {
+			x.add(itok{kind: "deferCommit"})
+			return
+		}
+		if _, ok := v.Call.Fun.(*ast.FuncLit); ok {
+			x.add(itok{kind: "other"})
+		}
+		n := len(x.toks)
+		x.expr(v.Call)
+		if len(x.toks) > n { // something of ours happens at function exit
+			x.add(itok{kind: "other"})
+		}
+	case *ast.ReturnStmt:
+		var ops []itok
+		if len(v.Results) == 0 { // bare return: the named results
+			for _, n := range x.results {
+				ops = append(ops, itok{kind: "var", a: n})
+			}
+		}
+		for _, r := range v.Results {
+			r = unparen(r)
+			if n := identName(r); n == "nil" {
+				ops = append(ops, itok{kind: "nil"})
+			} else if n != "" && x.tracked[n] {
+				ops = append(ops, itok{kind: "var", a: n})
+			} else if a := assertOf(r); a != "" {
+				ops = append(ops, itok{kind: "assertOf", a: a})
+			} else if c, ok := r.(*ast.CallExpr); ok {
+				if recv, m := x.dataCall(c); recv == "l" && m == "Commit" {
+					ops = append(ops, itok{kind: "commit"})
+				} else {
+					x.expr(r)
+					ops = append(ops, itok{kind: "other"})
+				}
+			} else {
+				x.expr(r)
+				ops = append(ops, itok{kind: "other"})
+			}
+		}
+		x.add(itok{kind: "ret", ops: ops})
+	case *ast.IfStmt:
+		x.stmt(v.Init)
+		if k, n := x.nilTest(v.Cond); k != "" {
+			x.add(itok{kind: k, a: n})
+		} else {
+			x.expr(v.Cond)
+			x.add(itok{kind: "ifOther"})
+		}
+		x.stmts(v.Body.List)
+		if v.Else != nil {
+			x.add(itok{kind: "else"})
+			x.stmt(v.Else)
+		}
+		x.add(itok{kind: "fi"})
+	case *ast.BlockStmt:
+		x.stmts(v.List)
+	case *ast.IncDecStmt, *ast.EmptyStmt:
+	case *ast.SendStmt:
+		x.expr(v.Chan)
+		x.expr(v.Value)
+	case *ast.LabeledStmt:
+		x.add(itok{kind: "other"})
+		x.stmt(v.Stmt)
+	case *ast.ForStmt:
+		x.add(itok{kind: "other"})
+		x.stmt(v.Init)
+		x.expr(v.Cond)
+		x.stmts(v.Body.List)
+		x.stmt(v.Post)
+	case *ast.RangeStmt:
+		x.add(itok{kind: "other"})
+		x.expr(v.X)
+		x.stmts(v.Body.List)
+	default: // switch, type switch, select, go, goto/break/continue
+		x.add(itok{kind: "other"})
+		x.expr(s)
+	}
+}
+
+// prune drops `if <other condition> { }` blocks in which nothing of ours happens (an unrelated statement)
+func prune(t []itok) []itok {
+	for changed := true; changed; {
+		changed = false
+		for i := 0; i+1 < len(t); i++ {
+			if t[i].kind != "ifOther" {
+				continue
+			}
+			j := i + 1
+			if t[j].kind == "else" {
+				j++
+			}
+			if j < len(t) && t[j].kind == "fi" {
+				t = append(t[:i:i], t[j+1:]...)
+				changed = true
+				break
+			}
+		}
+	}
+	return t
+}
+
+func leanITok(t []itok) string {
+	keys, vars := map[string]int{}, map[string]int{}
+	num := func(m map[string]int, s string) int {
+		if n, ok := m[s]; ok {
+			return n
+		}
+		m[s] = len(m)
+		return m[s]
+	}
+	var out []string
+	for _, k := range t {
+		switch k.kind {
+		case "lock", "deferCommit", "commit", "keys", "ifOther", "fi", "unlockedKeys", "lockerEscapes", "other", "missing":
+			out = append(out, "."+k.kind)
+		case "else":
+			out = append(out, ".else_")
+		case "value", "unlockedValue":
+			out = append(out, fmt.Sprintf(".%s %d %d", k.kind, num(keys, k.key), num(vars, k.a)))
+		case "setValue":
+			out = append(out, fmt.Sprintf(".setValue %d %d", num(keys, k.key), num(vars, k.a)))
+		case "unlockedSetValue":
+			out = append(out, fmt.Sprintf(".unlockedSetValue %d", num(keys, k.key)))
+		case "ifNil", "ifNotNil", "create":
+			out = append(out, fmt.Sprintf(".%s %d", k.kind, num(vars, k.a)))
+		case "assert":
+			// the source is numbered first when both are new: `y = x.(T)` reads x
+			b := num(vars, k.b)
+			out = append(out, fmt.Sprintf(".assert %d %d", num(vars, k.a), b))
+		case "ret":
+			var ops []string
+			for _, o := range k.ops {
+				switch o.kind {
+				case "var", "assertOf":
+					ops = append(ops, fmt.Sprintf(".%s %d", o.kind, num(vars, o.a)))
+				default:
+					ops = append(ops, "."+o.kind)
+				}
+			}
+			out = append(out, ".ret ["+strings.Join(ops, ", ")+"]")
+		default:
+			out = append(out, ".other")
+		}
+	}
+	return "[" + strings.Join(out, ", ") + "]"
+}
+
+type foundUser struct {
+	key, pos string
+	toks     []itok
+	keys     []string // key expressions the function reads / stores through its locker
+}
+
+func skipDir(rel string, name string) bool {
+	return strings.HasPrefix(name, ".") || name == "vendor" || name == "node_modules" || name == "testdata" ||
+		rel == "app/scope/datascope"
+}
+
+func parseDir(repo, rel string, cache map[string]*pkgFiles) *pkgFiles {
+	if p, ok := cache[rel]; ok {
+		return p
+	}
+	p := &pkgFiles{fset: token.NewFileSet(), files: map[string]*ast.File{}}
+	ents, _ := os.ReadDir(filepath.Join(repo, rel))
+	for _, e := range ents {
+		n := e.Name()
+		if e.IsDir() || !strings.HasSuffix(n, ".go") || strings.HasSuffix(n, "_test.go") {
+			continue
+		}
+		f, err := parser.ParseFile(p.fset, filepath.Join(repo, rel, n), nil, 0)
+		if err != nil {
+			fmt.Fprintln(os.Stderr, "facts:", err)
+			os.Exit(3)
+		}
+		p.files[filepath.ToSlash(filepath.Join(rel, n))] = f
+	}
+	cache[rel] = p
+	return p
+}
+
+func (p *pkgFiles) sortedFiles() []string {
+	var names []string
+	for n := range p.files {
+		names = append(names, n)
+	}
+	sort.Strings(names)
+	return names
+}
+
+func extractUser(p *pkgFiles, dir, file string, fd *ast.FuncDecl) foundUser {
+	x := &idiomX{fset: p.fset, pkg: p}
+	x.prepare(fd)
+	x.stmts(fd.Body.List)
+	u := foundUser{key: funcKey(dir, fd), toks: prune(x.toks)}
+	u.pos = fmt.Sprintf("%s:%d", file, p.fset.Position(fd.Pos()).Line)
+	seen := map[string]bool{}
+	for _, t := range u.toks {
+		if (t.kind == "value" || t.kind == "setValue") && !seen[t.key] {
+			seen[t.key] = true
+			u.keys = append(u.keys, t.key)
+		}
+	}
+	return u
+}
+
+// idiomFacts prints the idiom part of Extracted.lean (list=false) or, for the evidence file, one line per
+// user with its position (list=true)
+func idiomFacts(repo string, list bool) {
+	cache := map[string]*pkgFiles{}
+	var dirs []string
+	filepath.Walk(repo, func(path string, info os.FileInfo, err error) error {
+		if err != nil {
+			return nil
+		}
+		rel, _ := filepath.Rel(repo, path)
+		rel = filepath.ToSlash(rel)
+		if info.IsDir() {
+			if rel != "." && skipDir(rel, info.Name()) {
+				return filepath.SkipDir
+			}
+			return nil
+		}
+		if !strings.HasSuffix(path, ".go") || strings.HasSuffix(path, "_test.go") {
+			return nil
+		}
+		if b, err := os.ReadFile(path); err == nil && bytes.Contains(b, []byte("LockData")) {
+			if d := filepath.ToSlash(filepath.Dir(rel)); !contains(dirs, d) {
+				dirs = append(dirs, d)
+			}
+		}
+		return nil
+	})
+	users := map[string]foundUser{}
+	var order []string
+	for _, d := range dirs {
+		p := parseDir(repo, d, cache)
+		for _, fn := range p.sortedFiles() {
+			f := p.files[fn]
+			for _, decl := range f.Decls {
+				fd, ok := decl.(*ast.FuncDecl)
+				if !ok {
+					if mentionsLockData(decl) {
+						// a call at package level (or inside a package-level closure); interface declarations
+						// only name the method and are no SelectorExpr
+						k := d + ".(package level " + filepath.Base(fn) + ")"
+						users[k] = foundUser{key: k, pos: fn, toks: []itok{{kind: "other"}}}
+						order = append(order, k)
+					}
+					continue
+				}
+				if fd.Body == nil || !(mentionsLockData(fd.Body) || fd.Name.Name == "LockData") {
+					continue
+				}
+				u := extractUser(p, d, fn, fd)
+				users[u.key] = u
+				order = append(order, u.key)
+			}
+		}
+	}
+	sort.Strings(order)
+	// the functions the theorems name are extracted even when they no longer take a locker
+	known := map[string]bool{}
+	for _, k := range knownUsers {
+		key := k.dir + "." + k.recv + "." + k.name
+		known[key] = true
+		if _, ok := users[key]; ok {
+			continue
+		}
+		p := parseDir(repo, k.dir, cache)
+		u := foundUser{key: key, pos: k.dir, toks: []itok{{kind: "missing"}}}
+		for _, fn := range p.sortedFiles() {
+			for _, decl := range p.files[fn].Decls {
+				if fd, ok := decl.(*ast.FuncDecl); ok && fd.Body != nil && funcKey(k.dir, fd) == key {
+					u = extractUser(p, k.dir, fn, fd)
+				}
+			}
+		}
+		users[key] = u
+	}
+	// plain writers of the services' keys: <anything but the function's own locker>.SetValue(<key>, …) in the
+	// package of a known user
+	var writers []string
+	for _, k := range knownUsers {
+		u := users[k.dir+"."+k.recv+"."+k.name]
+		if len(u.keys) == 0 {
+			continue
+		}
+		p := parseDir(repo, k.dir, cache)
+		for _, fn := range p.sortedFiles() {
+			for _, decl := range p.files[fn].Decls {
+				fd, ok := decl.(*ast.FuncDecl)
+				if !ok || fd.Body == nil {
+					continue
+				}
+				x := &idiomX{fset: p.fset, pkg: p}
+				x.prepare(fd)
+				hit := false
+				ast.Inspect(fd.Body, func(n ast.Node) bool {
+					c, ok := n.(*ast.CallExpr)
+					if !ok || len(c.Args) != 2 {
+						return true
+					}
+					sel, ok := c.Fun.(*ast.SelectorExpr)
+					if !ok || sel.Sel.Name != "SetValue" || (x.locker != "" && identName(sel.X) == x.locker) {
+						return true
+					}
+					for _, key := range u.keys {
+						if src(p.fset, c.Args[0]) == key {
+							hit = true
+						}
+					}
+					return true
+				})
+				if hit {
+					writers = append(writers, funcKey(k.dir, fd))
+				}
+			}
+		}
+	}
+	sort.Strings(writers)
+	if list {
+		for _, k := range order {
+			fmt.Printf("user %s %s %s\n", k, users[k].pos, leanITok(users[k].toks))
+		}
+		for _, k := range knownUsers {
+			key := k.dir + "." + k.recv + "." + k.name
+			if u := users[key]; !contains(order, key) {
+				fmt.Printf("not-a-user %s %s %s\n", key, u.pos, leanITok(u.toks))
+			}
+		}
+		for _, w := range writers {
+			fmt.Printf("plain-writer %s\n", w)
+		}
+		return
+	}
+	fmt.Println("/- the get-or-create idiom: every function outside package datascope that mentions LockData -/")
+	for _, k := range knownUsers {
+		fmt.Printf("def %s : List ITok := %s\n", k.lean, leanITok(users[k.dir+"."+k.recv+"."+k.name].toks))
+	}
+	n := 0
+	for _, k := range order {
+		if !known[k] {
+			fmt.Printf("/-- %s -/\ndef user_%d : List ITok := %s\n", strings.ReplaceAll(k, "-/", "- /"), n, leanITok(users[k].toks))
+			n++
+		}
+	}
+	fmt.Printf("def idiomUsers : List String := [%s]\n", quoteList(order))
+	fmt.Printf("def keyPlainWriters : List String := [%s]\n", quoteList(writers))
+}
+
+func contains(l []string, s string) bool {
+	for _, x := range l {
+		if x == s {
+			return true
+		}
+	}
+	return false
+}
+
+func quoteList(l []string) string {
+	q := make([]string, len(l))
+	for i, s := range l {
+		q[i] = fmt.Sprintf("%q", s)
+	}
+	return strings.Join(q, ", ")
 }
